@@ -45,7 +45,18 @@ def gen_sequence(rng, n):
     loaded = set()
     mindb = os.path.join(vlib.DB, "minimum.dat")
 
+    last = [None]
+
     def pick_id():
+        # stay on the instance of the previous call about half of the time: set / switch-number / get chains on ONE instance are what
+        # exercises the per-user-number stores (a value set at user number 0 must be read back at user number 0)
+        if last[0] is not None and last[0] in live and rng.random() < 0.45:
+            return last[0]
+        i = pick_id0()
+        last[0] = i
+        return i
+
+    def pick_id0():
         k = rng.random()
         if live and k < 0.7:
             return rng.choice(live)
@@ -53,8 +64,39 @@ def gen_sequence(rng, n):
             return rng.randrange(issued)                 # possibly destroyed
         return rng.choice([-1, -7, issued, issued + 3, 10**6, -2**31])
 
+    def emit(i, b, ic, name, arg):
+        _emit(seq, i, b, ic, name, arg)
+
+    def chain():
+        """set / switch-number / read-back chain of the per-user-number stores on ONE live instance (user number 0 included)"""
+        i = rng.choice(live)
+        nums = rng.sample([0, 0, 1, 2, 7, 100], 2)
+        for n_ in nums:
+            b = rng.choice("CFM")
+            emit(i, b, "SetCur (%d)" % n_, "SetCurrentSelectedOutputUserNumber", n_)
+            for which in rng.sample(["File", "String", "Name"], rng.randint(1, 3)):
+                b = rng.choice("CFM")
+                if which == "Name":
+                    v = rng.choice([x for x in NAMES if x])
+                    emit(i, b, "SetSelName (Some %s)" % cqs(v), "SetSelectedOutputFileName", ("str", v))
+                else:
+                    v = rng.choice([1, 1, 0])
+                    emit(i, b, "SetSel%s %s" % (which, "true" if v else "false"), "SetSelectedOutput%sOn" % which, v)
+        for n_ in nums + [rng.choice([0, 3])]:
+            b = rng.choice("CFM")
+            emit(i, b, "SetCur (%d)" % n_, "SetCurrentSelectedOutputUserNumber", n_)
+            for which in ["File", "String", "Name"]:
+                b = rng.choice("CFM")
+                if which == "Name":
+                    emit(i, b, "GetSelName", "GetSelectedOutputFileName", "strget")
+                else:
+                    emit(i, b, "GetSel" + which, "GetSelectedOutput%sOn" % which, None)
+
     for _ in range(n):
         k = rng.random()
+        if live and rng.random() < 0.06:
+            chain()
+            continue
         if k < 0.12 or not issued:
             seq.append(("Create", ["create"], lambda r: "OInt %d" % r["id"]))
             live.append(issued)
@@ -103,7 +145,7 @@ def gen_sequence(rng, n):
                 ic, name, arg = "GetName %s" % s, "Get" + fn, "strget"
         elif kind < 0.7:
             if rng.random() < 0.6:
-                v = rng.choice([0, 1, 2, 3, 7, 100, -1, -5, 2**31 - 1])
+                v = rng.choice([0, 0, 1, 2, 3, 7, 100, -1, -5, 2**31 - 1])
                 ic, name, arg = "SetCur (%d)" % v, "SetCurrentSelectedOutputUserNumber", v
             else:
                 ic, name, arg = "GetCur", "GetCurrentSelectedOutputUserNumber", None
@@ -126,6 +168,12 @@ def gen_sequence(rng, n):
             ic, name, arg, b = "GetId", "GetId", None, "M"
             if i not in live:
                 continue
+        emit(i, b, ic, name, arg)
+    return seq
+
+
+def _emit(seq, i, b, ic, name, arg):
+    if True:
         # driver op + decoder
         if b == "C":
             call = "CCall (%d) (%s)" % (i, ic)
@@ -153,7 +201,6 @@ def gen_sequence(rng, n):
                 op = ["f", name + "F", i] + ([] if arg is None else [arg[1] if isinstance(arg, tuple) else arg])
                 dec = lambda r: oint(r["r"])
         seq.append((call, op, dec))
-    return seq
 
 
 def run_sequences(ctx, wexe, seqs):
@@ -253,7 +300,13 @@ def run(ctx):
             ctx.case("seq:" + vlib.key_of([c[0] for c in s]), nontrivial=ncreate >= 2 and any(c[0].startswith("Destroy") for c in s),
                      sample={"calls": [c[0] for c in s[:14]]} if len(ctx.samples) < 2 else None)
             if mm:
-                small = shrink(s, wexe)
+                # calls after the first disagreement are irrelevant: cut there, then shrink (only the first few sequences: each shrink
+                # step costs a driver run and a coqc call)
+                small = s[:mm[0] + 1]
+                nshrunk = ctx.extra.get("c13_shrunk", 0)
+                if nshrunk < 3:
+                    ctx.extra["c13_shrunk"] = nshrunk + 1
+                    small = shrink(small, wexe)
                 o2, _ = run_sequences(ctx, wexe, [small])[0]
                 ctx.violation("trace:" + vlib.key_of([c[0] for c in small]),
                               "the library and the proved registry/set-get model disagree at call #%d of a sequence (after shrinking: %d calls)" % (mm[0], len(small)),
